@@ -269,6 +269,8 @@ pub fn stdfs_step(root: &str, state: &NTree, op: &Op) -> Option<(Res, NTree, NTr
     let cwd = if state.cwd == "/" { root.to_string() } else { format!("{}{}", root, state.cwd) };
     std::env::set_current_dir(&cwd).ok()?;
     let pre = unmap_ntree(&disk_ntree(root), root);
+    // (a call that does not return is attributed to the real backend, with the state it ran on)
+    crate::infra::set_case(&format!("stdfs:{}:returns→stalls", op.name()), &format!("{} on {}", op.describe(), state.to_json().dump()));
     let r = exec(&Stdfs::new(), &map_op(op, root));
     let post = unmap_ntree(&disk_ntree(root), root);
     let _ = std::env::set_current_dir(root);
